@@ -407,6 +407,22 @@ def check_temperature(ctx):
 BAD = [None, '', 'bogus']
 
 
+def near(v, valid):
+    """Near-miss spellings of a valid name (other capitalisation, a trailing blank) that are not themselves valid names."""
+    if not isinstance(v, str):
+        return []
+    out = []
+    for w in (v.lower(), v.upper(), v.swapcase(), v.capitalize(), v + ' ', ' ' + v):
+        if w != v and w not in valid and w not in out:
+            out.append(w)
+    return out
+
+
+MODES = ('absolute', 'relative', 'relative%')
+LBASES = ('molar', 'mass', 'volume_gas', 'volume_liquid', 'fraction', 'percent')
+MBASES = ('mass', 'volume', 'molar')
+
+
 def check_refusals(ctx, env):
     import pygaps
     name, T, c = env
@@ -434,15 +450,28 @@ def check_refusals(ctx, env):
         if a == b:
             continue
         base = [1.0, a[0], b[0], a[1], b[1], ads, T]
-        for bad in BAD + ['molar']:
+        for bad in BAD + ['molar'] + near(a[0], MODES):
             expect_refused('pressure', c_pressure, base[:1] + [bad] + base[2:], 'mode_from', f'mode {bad!r}')
+        for bad in BAD + ['molar'] + near(b[0], MODES):
             expect_refused('pressure', c_pressure, base[:2] + [bad] + base[3:], 'mode_to', f'mode {bad!r}')
+        for bad in near(a[1], ru.P_UNITS):
+            expect_refused('pressure', c_pressure, base[:3] + [bad] + base[4:], 'unit_from', f'unit {bad!r} (near-miss of {a[1]!r})')
+        for bad in near(b[1], ru.P_UNITS):
+            expect_refused('pressure', c_pressure, base[:4] + [bad] + base[5:], 'unit_to', f'unit {bad!r} (near-miss of {b[1]!r})')
         for bad in BAD + ['mmol']:
             if a[0] == 'absolute':
                 expect_refused('pressure', c_pressure, base[:3] + [bad] + base[4:], 'unit_from', f'unit {bad!r}')
             if b[0] == 'absolute' and not (a[0] == 'absolute' and not bad):
                 # same-mode call with the target unit omitted means "no unit change requested": not in the alphabet
                 expect_refused('pressure', c_pressure, base[:4] + [bad] + base[5:], 'unit_to', f'unit {bad!r}')
+    # the SAME missing / unknown mode (basis) on both sides is not "nothing to convert"
+    for bad in BAD + ['Absolute', 'ABSOLUTE', 'molar', 'relative %']:
+        for uf, ut in (('bar', 'Pa'), ('bar', 'bar'), (None, None)):
+            for val in (1.0, numpy.array([1.0, 2.0])):
+                expect_refused('pressure', c_pressure, [val, bad, bad, uf, ut, ads, T], 'mode_from and mode_to', f'the same mode {bad!r} on both sides')
+    for bad in BAD + ['Molar', 'absolute']:
+        expect_refused('loading', c_loading, [1.0, bad, bad, 'mmol', 'mol', ads, T, 'mass', 'g'], 'basis_from and basis_to', f'the same basis {bad!r} on both sides')
+        expect_refused('material', c_material, [1.0, bad, bad, 'g', 'kg', mat], 'basis_from and basis_to', f'the same basis {bad!r} on both sides')
     # loading: (value, basis_from, basis_to, unit_from, unit_to, adsorbate, temp, basis_material, unit_material)
     frac = ('fraction', 'percent')
     lreps = [('molar', 'mmol'), ('mass', 'g'), ('volume_gas', 'cm3'), ('volume_liquid', 'L'), ('fraction', None), ('percent', None),
@@ -456,6 +485,13 @@ def check_refusals(ctx, env):
             for bad in BAD + ['absolute']:
                 expect_refused('loading', c_loading, base[:1] + [bad] + base[2:], 'basis_from', f'basis {bad!r}')
                 expect_refused('loading', c_loading, base[:2] + [bad] + base[3:], 'basis_to', f'basis {bad!r}')
+            if mrep == mreps[0]:
+                for bad in near(a[0], LBASES):
+                    expect_refused('loading', c_loading, base[:1] + [bad] + base[2:], 'basis_from', f'basis {bad!r}')
+                for bad in near(a[1], ru.LOADING_TABLE.get(a[0], {})):
+                    expect_refused('loading', c_loading, base[:3] + [bad] + base[4:], 'unit_from', f'unit {bad!r} (near-miss of {a[1]!r})')
+                for bad in near(b[1], ru.LOADING_TABLE.get(b[0], {})):
+                    expect_refused('loading', c_loading, base[:4] + [bad] + base[5:], 'unit_to', f'unit {bad!r} (near-miss of {b[1]!r})')
             for bad in BAD + ['bar']:
                 if a[0] not in frac:
                     expect_refused('loading', c_loading, base[:3] + [bad] + base[4:], 'unit_from', f'unit {bad!r}')
@@ -483,7 +519,7 @@ def check_refusals(ctx, env):
         for bad in BAD + ['fraction', 'volume_gas']:
             expect_refused('material', c_material, base[:1] + [bad] + base[2:], 'basis_from', f'basis {bad!r}')
             expect_refused('material', c_material, base[:2] + [bad] + base[3:], 'basis_to', f'basis {bad!r}')
-        for bad in BAD + ['bar']:
+        for bad in BAD + ['bar'] + near(a[1], ru.MATERIAL_TABLE.get(a[0], {})):
             expect_refused('material', c_material, base[:3] + [bad] + base[4:], 'unit_from', f'unit {bad!r}')
             if not (a[0] == b[0] and not bad):
                 expect_refused('material', c_material, base[:4] + [bad] + base[5:], 'unit_to', f'unit {bad!r}')
